@@ -4,7 +4,7 @@
    bound on a new bond is the truncation rule of C10 (Trunc/Select.v).  Statements only. *)
 From Coq Require Import List Arith ZArith QArith.
 From PTN Require Import Tree.RTree Tree.Nav Tree.UpdatePath Tree.CachePath Tree.Enum Tree.EnumProofs
-     Sched.TDVP Sched.TDVPProofs Sched.TDVPFresh Sched.TDVPBounded Trunc.Select Trunc.SelectProofs.
+     Sched.TDVP Sched.TDVPProofs Sched.TDVPMore Sched.TDVPFresh Sched.TDVPBounded Trunc.Select Trunc.SelectProofs.
 Import ListNotations.
 Local Close Scope Q_scope.
 
@@ -51,11 +51,10 @@ Theorem C07_schedule_ok_bounded_9 : forall t, In t (trees_upto 9) -> 2 <= size t
 Proof. intros t H1 H2. exact (proj2 (proj2 (cache_fresh_bounded_9 t H1 H2))). Qed.
 Print Assumptions C07_schedule_ok_bounded_9.
 
-(* ---- the step is a palindrome of (object, factor): bounded ---------------------------------- *)
-Theorem C07_palindrome_bounded_10 : forall t, In t (trees_upto 10) -> 2 <= size t ->
-  exists tr, trace2s t = Some tr /\ objs tr = rev (objs tr).
-Proof. intros t H1 H2. exact (proj2 (palindrome_bounded_10 t H1 H2)). Qed.
-Print Assumptions C07_palindrome_bounded_10.
+(* ---- the step is a palindrome of (object, signed factor) on EVERY tree ----------------------- *)
+Theorem C07_palindrome : forall t tr, trace2s t = Some tr -> objs tr = rev (objs tr).
+Proof. exact trace2s_palindrome. Qed.
+Print Assumptions C07_palindrome.
 
 Theorem C07_enumeration_complete : forall t n, size t <= n -> In (relabel (erase t)) (trees_upto n).
 Proof. exact trees_upto_complete. Qed.
